@@ -118,6 +118,12 @@ func (st *Store) RangeOf(t *Term, signed bool) (lo, hi int64, ok bool) {
 			}
 			return l, h, true
 		}
+	case t.Op == "bvand":
+		for _, a := range t.Args {
+			if a.Op == "const" && a.Val < 1<<62 && (t.S.W == 64 || a.Val < 1<<uint(t.S.W-1)) {
+				return 0, int64(a.Val), true
+			}
+		}
 	case t.Op == "ite":
 		al, ah, ok1 := st.RangeOf(t.Args[1], signed)
 		bl, bh, ok2 := st.RangeOf(t.Args[2], signed)
@@ -650,6 +656,24 @@ func (st *Store) FPBin(op string, a, b *Term) *Term {
 			return st.Float(x * y)
 		case "fp.div":
 			return st.Float(x / y)
+		}
+	}
+	// exact integers: the sum/difference of two integers of magnitude <= 2^53 is computed
+	// exactly in 64-bit arithmetic and rounded once, exactly like fp.add/fp.sub would
+	if x, ok := st.isI2F(a); ok {
+		if y, ok := st.isI2F(b); ok {
+			switch op {
+			case "fp.add":
+				return st.IntToFP(st.BVBin("bvadd", x, y), true)
+			case "fp.sub":
+				return st.IntToFP(st.BVBin("bvsub", x, y), true)
+			case "fp.mul":
+				xl, xh, ok1 := st.RangeOf(x, true)
+				yl, yh, ok2 := st.RangeOf(y, true)
+				if ok1 && ok2 && abs64(xl) < 1<<26 && abs64(xh) < 1<<26 && abs64(yl) < 1<<26 && abs64(yh) < 1<<26 {
+					return st.IntToFP(st.BVBin("bvmul", x, y), true)
+				}
+			}
 		}
 	}
 	return st.mk(op+" RNE", FPSort, a, b)
